@@ -1,5 +1,5 @@
 (* C07/Run.v — evaluation of the model and the spec on harness cases. *)
-From Relic Require Import Base.Prelude Base.Val Generated.C07_gen C07.Model C07.History.
+From Relic Require Import Base.Prelude Base.Val Generated.C07_gen C07.Model C07.History C07.Pgp.
 
 Definition vpub (v : val) : pubk :=
   let alg := vz (vnth 0 v) in
@@ -149,6 +149,37 @@ Definition run_hist (v : val) : val :=
                    (vfiles (fun x => vpgpfile (vz (vnth 1 x)) (vnth 2 x)) (Err E_READ) (vl (vnth 5 v))) in
   VL (map hist_out (History.run c (vz (vnth 2 v)) w [] (map vevent (vl (vnth 6 v))))).
 
+(* [7 [kid keypub] ent modes msg]: OpenPGP certificate structure x PGP-family signers (C07/Pgp.v).
+   ent = [pe_id kp cansign revoked idents subs privopt]; kp = [id pub];
+   ident = [nrev has_self primary time flags_valid certify sign sigexp revoked keyexp];
+   sub = [kp flags_valid certify sign cansign keyexp sigexp revoked time privopt]; privopt = [] | [kp enc [kid pub]];
+   modes = [[kind clearsign armor textmode miniclear] ...].
+   Output: [load_status must_fail file_wf [[status [[keyid fpr made_by_kid spec_ok by_token_key] ...]] ...]] *)
+Definition vkp (v : val) : kpkt := mkKp (vz (vnth 0 v)) (vpub (vnth 1 v)).
+Definition vppkt (v : val) : option ppkt :=
+  match vl v with [] => None | _ => Some (mkPp (vkp (vnth 0 v)) (vbool (vnth 1 v)) (vpriv (vnth 2 v))) end.
+Definition vident (v : val) : ident :=
+  mkId (vz (vnth 0 v)) (vbool (vnth 1 v)) (vbool (vnth 2 v)) (vz (vnth 3 v)) (vbool (vnth 4 v)) (vbool (vnth 5 v)) (vbool (vnth 6 v))
+       (vbool (vnth 7 v)) (vbool (vnth 8 v)) (vbool (vnth 9 v)).
+Definition vsubk (v : val) : subk :=
+  mkSub (vkp (vnth 0 v)) (vbool (vnth 1 v)) (vbool (vnth 2 v)) (vbool (vnth 3 v)) (vbool (vnth 4 v)) (vbool (vnth 5 v)) (vbool (vnth 6 v))
+        (vbool (vnth 7 v)) (vz (vnth 8 v)) (vppkt (vnth 9 v)).
+Definition vpent (v : val) : pent :=
+  mkPent (vz (vnth 0 v)) (vkp (vnth 1 v)) (vbool (vnth 2 v)) (vbool (vnth 3 v)) (map vident (vl (vnth 4 v))) (map vsubk (vl (vnth 5 v))) (vppkt (vnth 6 v)).
+Definition vmode (v : val) : pgpmode := mkMode (vz (vnth 0 v)) (vbool (vnth 1 v)) (vbool (vnth 2 v)) (vbool (vnth 3 v)) (vbool (vnth 4 v)).
+Definition run_pgp (v : val) : val :=
+  let key := vpriv (vnth 1 v) in
+  let e := vpent (vnth 2 v) in
+  let m := vz (vnth 4 v) in
+  let one (mv : val) : val :=
+    let r := pgp_request key e (vmode mv) m in
+    match r with
+    | Ok l => VL [VZ 0; VL (map (fun s => VL [VZ (ps_keyid s); VZ (ps_fpr s); VZ (k_id (s_key (ps_val s)));
+                                              of_bool (spec_pgp_sig_ok (cert_packets e) m s); of_bool (spec_pgp_by_token_key key s)]) l)]
+    | _ => VL [VZ (status r); VL []]
+    end in
+  VL [VZ (status (load_pgp key e)); of_bool (spec_pgp_must_fail key e); of_bool (ent_file_wf e); VL (map one (vl (vnth 3 v)))].
+
 Definition run (v : val) : val :=
   let op := vz (vnth 0 v) in
   if op =? 0 then run_same v
@@ -158,4 +189,5 @@ Definition run (v : val) : val :=
   else if op =? 4 then run_lookup v
   else if op =? 5 then run_flow v
   else if op =? 6 then run_hist v
+  else if op =? 7 then run_pgp v
   else VL [].
